@@ -48,7 +48,10 @@ package expr
 //@   loop 1 decreases n - i
 
 // ---- C17: the tree listener writes only below the enclosing path -----------------------------------------------
-//@ spec fun under(key string, k string) bool = key == "" || has_prefix(k, key + ".")
+//@ spec fun under(key string, k string) bool = key == "" || pfx(k, key + ".")
+// two facts about prefixes, proved once from the definitions and then used wherever pfx occurs
+//@ lemma[C17:prefix-of-a-prefix when pfx] forall s, p, q string :: { pfx(s, p + q) } str_wf(p) && len(q) >= 0 && pfx(s, p + q) ==> pfx(s, p)
+//@ lemma[C17:concatenation-extends when pfx] forall a, b string :: { pfx(a + b, a) } str_wf(a) && len(b) >= 0 ==> pfx(a + b, a)
 //@ spec fun fieldKeyOf(key string, ctx IInnerExprContext) string = key == "" ? IFieldAccessContext.GetText(IInnerExprContext.FieldAccess(ctx)) : key + "." + IFieldAccessContext.GetText(IInnerExprContext.FieldAccess(ctx))
 //@ spec fun strTok(ctx IInnerExprContext) antlr.TerminalNode = IValueContext.STRING(IInnerExprContext.Value(ctx))
 
